@@ -202,6 +202,18 @@ DEFECTS = {
         _sp(['def path FAN_Q = -rel-act @[FAN_C]@'], support=['def string OK_S = ok', _WT['L'],
                                                              'def string FAN_C = @[OK_S]@@[WT_L]@'],
             tag='indirect_sibling'),
+        # a list / path symbol, or a string built from one, as a COMPONENT of a file name ("Every symbol used as a path
+        # component of a path must be defined as a string"): embedded in a name without relativity, after a leading
+        # path reference, after an explicit relativity, in a files-source
+        _sp(['dir out-@[WT_L]@'], support=[_WT['L']], tag='path_component'),
+        _sp(['dir @[EXACTLY_ACT]@/@[WT_L]@'], support=[_WT['L']], tag='path_component'),
+        _sp(['file -rel-tmp n-@[WT_L]@.txt'], support=[_WT['L']], tag='path_component'),
+        _sp(['file pre/@[WT_P]@'], support=[_WT['P']], tag='path_component'),
+        _sp(['dir out-@[FAN_B]@'], support=[_WT['L'], 'def string FAN_B = @[WT_L]@'], tag='path_component'),
+        _sp(['file x-@[OK_S]@-@[FAN_B]@.txt = "t"'], support=['def string OK_S = ok', _WT['P'],
+                                                             'def string FAN_B = @[WT_P]@'], tag='path_component'),
+        _sp(['def path PC_Q = c-@[WT_L]@'], support=[_WT['L']], tag='path_component'),
+        _sp(['dir pd = { file f-@[WT_L]@ }'], support=[_WT['L']], tag='path_component'),
         _sp(['exit-code WT_LM'], phases=('assert',), support=[_WT['LM']]),
         _sp(['stdout WT_S'], phases=('assert',), support=[_WT['S']]),
         _sp(['@ WT_S'], phases=('act',), support=[_WT['S']]),
@@ -259,6 +271,18 @@ DEFECTS = {
         _sp(['dir md = { file a.txt = -contents-of missing.txt }'], tag='nested'),
         _sp(['def text-source MTS = -contents-of missing.txt', 'file m.txt = @[MTS]@'], tag='def_ref'),
         _sp(['def program MPG = missing-program', 'run @ MPG'], tag='def_ref'),
+        # the file-checking argument is given where a program SYMBOL is referenced (arguments accumulated by a reference
+        # keep their validators), at one and at two levels of symbols
+        _sp(['run @ MPG_OK -existing-file missing.txt'], support=['def program MPG_OK = % echo'], tag='ref_args'),
+        _sp(['run @ MPG_OK a -existing-dir ex.txt'], support=['def program MPG_OK = % echo x'], tag='ref_args'),
+        _sp(['run @ MPG_2 -existing-path -rel-home missing'], support=['def program MPG_OK = % echo',
+                                                                      'def program MPG_2 = @ MPG_OK y'], tag='ref_args'),
+        _sp(['def program MPG_2 = @ MPG_OK -existing-file missing.txt', 'run @ MPG_2'],
+            support=['def program MPG_OK = % echo'], tag='ref_args'),
+        _sp(['file m.txt = -stdout-from @ MPG_OK -existing-file missing.txt'], support=['def program MPG_OK = % echo'],
+            tag='ref_args'),
+        _sp(['@ MPG_OK -existing-file missing.txt'], phases=('act',), support=['def program MPG_OK = % echo'],
+            tag='ref_args'),
         _sp(['def text-source MTS = -contents-of missing.txt'], tag='unref_def'),
         _sp(['def program MPG = % echo -existing-file missing.txt'], tag='unref_def'),
         _sp(['stdout equals -contents-of missing.txt'], phases=('assert',)),
